@@ -38,18 +38,114 @@ Proof.
   rewrite Bool.andb_true_iff, N.eqb_eq, IH. split; [intros [-> ->]; reflexivity|intros H; injection H; auto].
 Qed.
 
-Lemma code_key_eqb_spec a b : code_key_eqb a b = true <-> a = b.
+Lemma code_key_old_eqb_spec a b : code_key_old_eqb a b = true <-> a = b.
 Proof.
-  destruct a as [a1 a2], b as [b1 b2]. unfold code_key_eqb. cbn [fst snd].
+  destruct a as [a1 a2], b as [b1 b2]. unfold code_key_old_eqb. cbn [fst snd].
   rewrite Bool.andb_true_iff, text_eqb_spec, N.eqb_eq. split; [intros [-> ->]; reflexivity|intros H; injection H; auto].
 Qed.
 
-Lemma fixed_key_eqb_spec a b : fixed_key_eqb a b = true <-> a = b.
+Lemma code_key_eqb_spec a b : code_key_eqb a b = true <-> a = b.
 Proof.
-  destruct a as [[a1 a2] a3], b as [[b1 b2] b3]. unfold fixed_key_eqb. cbn [fst snd].
+  destruct a as [[a1 a2] a3], b as [[b1 b2] b3]. unfold code_key_eqb. cbn [fst snd].
   rewrite !Bool.andb_true_iff, text_eqb_spec, !N.eqb_eq.
   split; [intros [[-> ->] ->]; reflexivity|intros H; injection H; auto].
 Qed.
+
+(* ---------- the hull of a chunk and the token hash's subtractions ---------- *)
+Lemma list_min_le x l : list_min x l <= x /\ (forall y, In y l -> list_min x l <= y).
+Proof.
+  revert x. induction l as [|z l IH]; intros x; cbn [list_min].
+  - split; [lia|intros y []].
+  - destruct (IH (Nat.min x z)) as [H1 H2]. split; [lia|].
+    intros y [<-|Hy]; [lia|now apply H2].
+Qed.
+
+Lemma list_max_ge x l : x <= list_max x l /\ (forall y, In y l -> y <= list_max x l).
+Proof.
+  revert x. induction l as [|z l IH]; intros x; cbn [list_max].
+  - split; [lia|intros y []].
+  - destruct (IH (Nat.max x z)) as [H1 H2]. split; [lia|].
+    intros y [<-|Hy]; [lia|now apply H2].
+Qed.
+
+Lemma mapM_In {A B} (f : A -> res B) : forall l l' y,
+  mapM f l = Ok l' -> In y l' -> exists x, In x l /\ f x = Ok y.
+Proof.
+  induction l as [|x l IH]; intros l' y H Hy; cbn [mapM] in H.
+  - injection H as <-. destruct Hy.
+  - destruct (f x) as [b|] eqn:E; cbn [bind] in H; [|discriminate].
+    destruct (mapM f l) as [t'|] eqn:E'; cbn [bind] in H; [|discriminate].
+    injection H as <-. destruct Hy as [<-|Hy].
+    + exists x. split; [now left|assumption].
+    + destruct (IH t' y eq_refl Hy) as (x0 & Hx0 & Hf). exists x0. split; [now right|assumption].
+Qed.
+
+Section TokenFacts.
+  Variable kind : Type.
+  Notation toks := (list (tok kind)).
+
+  (* chunk.span() never panics (Span::new(min, max)), and its start is below every start and end *)
+  Lemma hull_of_total (ts : toks) : exists o, hull_of ts = Ok o.
+  Proof.
+    unfold hull_of. destruct (flat_map tok_points ts) as [|x [|y r]]; [now eexists| |].
+    - unfold span_new. rewrite Nat.ltb_irrefl. cbn [bind]. now eexists.
+    - unfold span_new.
+      destruct (list_min_le x (y :: r)) as [H1 _]. destruct (list_max_ge x (y :: r)) as [H2 _].
+      replace (list_max x (y :: r) <? list_min x (y :: r)) with false by (symmetry; apply Nat.ltb_ge; lia).
+      cbn [bind]. now eexists.
+  Qed.
+
+  Lemma hull_of_below (ts : toks) sp :
+    hull_of ts = Ok (Some sp) ->
+    Forall (fun t => sstart sp <= sstart (snd t) /\ sstart sp <= send (snd t)) ts.
+  Proof.
+    unfold hull_of. intros H.
+    assert (Hp : forall p, In p (flat_map tok_points ts) -> sstart sp <= p).
+    { destruct (flat_map tok_points ts) as [|x [|y r]]; [discriminate| |].
+      - unfold span_new in H. rewrite Nat.ltb_irrefl in H. cbn [bind] in H. injection H as <-.
+        intros p [<-|[]]. cbn [sstart]. lia.
+      - unfold span_new in H. destruct (list_max x (y :: r) <? list_min x (y :: r)); cbn [bind] in H; [discriminate|].
+        injection H as <-. cbn [sstart]. destruct (list_min_le x (y :: r)) as [H1 H2].
+        intros p [<-|Hp]; [assumption|now apply H2]. }
+    apply Forall_forall. intros t Ht. split; apply Hp; apply in_flat_map; exists t; (split; [assumption|]); cbn [tok_points In]; auto.
+  Qed.
+
+  (* the subtractions of the token hash cannot underflow when no token starts or ends before the base *)
+  Lemma rel_toks_ok base (ts : toks) :
+    Forall (fun t => base <= sstart (snd t) /\ base <= send (snd t)) ts ->
+    rel_toks base ts = Ok (map (fun t => (fst t, mkspan (sstart (snd t) - base) (send (snd t) - base))) ts).
+  Proof.
+    unfold rel_toks. induction 1 as [|t ts [Ha Hb] _ IH]; [reflexivity|].
+    cbn [mapM map]. unfold rel_tok at 1, sub_chk.
+    replace (sstart (snd t) <? base) with false by (symmetry; apply Nat.ltb_ge; lia).
+    replace (send (snd t) <? base) with false by (symmetry; apply Nat.ltb_ge; lia).
+    cbn [bind]. rewrite IH. reflexivity.
+  Qed.
+
+  Lemma rel_toks_0 (ts : toks) : rel_toks 0 ts = Ok ts.
+  Proof.
+    rewrite rel_toks_ok by (apply Forall_forall; intros; lia). f_equal.
+    induction ts as [|[k [a b]] ts IH]; [reflexivity|]. cbn [map fst snd sstart send]. rewrite !Nat.sub_0_r, IH. reflexivity.
+  Qed.
+
+  (* every chunk LintGroup::lint builds is well-formed: its start is the minimum over its tokens *)
+  Lemma chunk_of_wf src (ts : toks) ch : chunk_of src ts = Ok (Some ch) -> chunk_wf ch.
+  Proof.
+    unfold chunk_of. destruct (hull_of ts) as [[sp|]|] eqn:H; cbn [bind]; try discriminate.
+    destruct (get_content sp src) as [chars|]; cbn [bind]; [|discriminate].
+    intros E. injection E as <-. unfold chunk_wf. cbn [c_start c_toks]. now apply hull_of_below.
+  Qed.
+
+  Lemma doc_of_wf src (chunks : list toks) miss rest d : doc_of src chunks miss rest = Ok d -> doc_wf d.
+  Proof.
+    unfold doc_of. destruct (mapM (chunk_of src) chunks) as [chs|] eqn:E; cbn [bind]; [|discriminate].
+    intros H. injection H as <-. intros ch Hin. cbn [d_chunks] in Hin.
+    destruct (mapM_In _ _ _ _ E Hin) as (ts & _ & Hts). now apply chunk_of_wf in Hts.
+  Qed.
+
+  Lemma rel_toks_spec (ch : chunk kind) : chunk_wf ch -> rel_toks (c_start ch) (c_toks ch) = Ok (spec_rel ch).
+  Proof. intros H. now apply rel_toks_ok. Qed.
+End TokenFacts.
 
 (* ---------- association lists ---------- *)
 Section AssocFacts.
@@ -80,32 +176,34 @@ Section AssocFacts.
 End AssocFacts.
 
 Section CacheFacts.
-  Variables cfg toks K : Type.
+  Variables cfg kind K : Type.
   Variable k_eqb : K -> K -> bool.
   Hypothesis k_eqb_spec : forall a b, k_eqb a b = true <-> a = b.
+  Notation toks := (list (tok kind)).
   Variable mkkey : text -> toks -> cfg -> K.
   Variable pattern_rel : text -> toks -> cfg -> list clint.
-  Variables struct_pre struct_post : cfg -> doc toks -> list clint.
+  Variables struct_pre struct_post : cfg -> doc kind -> list clint.
   Variable spell_on : cfg -> bool.
   Variable suggest : text -> list text.
   Variable spell_mk : text -> span -> list text -> clint.
 
-  Notation lint_chunks := (lint_chunks cfg toks K k_eqb mkkey pattern_rel).
+  Notation lint_chunks := (lint_chunks cfg kind K k_eqb mkkey pattern_rel).
   Notation lint_words := (lint_words suggest spell_mk).
-  Notation lint_doc := (lint_doc cfg toks K k_eqb mkkey pattern_rel struct_pre struct_post spell_on suggest spell_mk).
-  Notation step := (step cfg toks K k_eqb mkkey pattern_rel struct_pre struct_post spell_on suggest spell_mk).
-  Notation run_hist := (run_hist cfg toks K k_eqb mkkey pattern_rel struct_pre struct_post spell_on suggest spell_mk).
-  Notation fresh_hist := (fresh_hist cfg toks K k_eqb mkkey pattern_rel struct_pre struct_post spell_on suggest spell_mk).
-  Notation spec_chunk := (spec_chunk cfg toks pattern_rel).
+  Notation lint_doc := (lint_doc cfg kind K k_eqb mkkey pattern_rel struct_pre struct_post spell_on suggest spell_mk).
+  Notation step := (step cfg kind K k_eqb mkkey pattern_rel struct_pre struct_post spell_on suggest spell_mk).
+  Notation run_hist := (run_hist cfg kind K k_eqb mkkey pattern_rel struct_pre struct_post spell_on suggest spell_mk).
+  Notation fresh_hist := (fresh_hist cfg kind K k_eqb mkkey pattern_rel struct_pre struct_post spell_on suggest spell_mk).
+  Notation spec_chunk := (spec_chunk cfg kind pattern_rel).
   Notation spec_words := (spec_words suggest spell_mk).
-  Notation spec_lint := (spec_lint cfg toks pattern_rel struct_pre struct_post spell_on suggest spell_mk).
-  Notation spec_hist := (spec_hist cfg toks K pattern_rel struct_pre struct_post spell_on suggest spell_mk).
-  Notation hist_triples := (hist_triples cfg toks K).
-  Notation doc_triples := (doc_triples cfg toks).
+  Notation spec_lint := (spec_lint cfg kind pattern_rel struct_pre struct_post spell_on suggest spell_mk).
+  Notation spec_hist := (spec_hist cfg kind K pattern_rel struct_pre struct_post spell_on suggest spell_mk).
+  Notation hist_triples := (hist_triples cfg kind K).
+  Notation hist_wf := (hist_wf cfg kind K).
+  Notation doc_triples := (doc_triples cfg kind).
   Notation triple := (text * toks * cfg)%type.
 
-  (* every entry of the chunk cache was computed by the pattern rules for SOME chunk of the universe U
-     that has this key — the tokens are not part of the code's key, hence the existential *)
+  (* every entry of the chunk cache was computed by the pattern rules for a chunk of the universe U
+     that has this key *)
   Definition entries_ok (U : list triple) (m : list (K * list clint)) : Prop :=
     forall k v, In (k, v) m ->
       exists ch t c, In (ch, t, c) U /\ k = mkkey ch t c /\ v = pattern_rel ch t c.
@@ -129,26 +227,30 @@ Section CacheFacts.
   Lemma spell_ok_evict keep sm : spell_ok sm -> spell_ok (evict keep sm).
   Proof. intros H w v Hin. apply (H w v). now apply In_evict in Hin. Qed.
 
-  (* the chunk loop: total; keeps the invariant; and, when the key determines the value, emits exactly
+  (* the chunk loop: total on well-formed chunks (the subtractions of the token hash and the pull_by of a
+     miss cannot underflow); keeps the invariant; and, when the key determines the value, emits exactly
      what the rules compute without any cache *)
   Lemma lint_chunks_ok U c : forall chs evs m,
     entries_ok U m ->
-    (forall ch, In (Some ch) chs -> In (c_chars ch, c_toks ch, c) U) ->
+    (forall ch, In (Some ch) chs -> chunk_wf ch) ->
+    (forall ch, In (Some ch) chs -> In (c_chars ch, spec_rel ch, c) U) ->
     exists m' out hits,
       lint_chunks c chs evs m = Ok (m', out, hits) /\ entries_ok U m' /\
       (key_det U -> out = flat_map (spec_chunk c) chs).
   Proof.
-    induction chs as [|oc chs IH]; intros evs m Hm HU.
+    induction chs as [|oc chs IH]; intros evs m Hm Hwf HU.
     - exists m, [], []. cbn. auto.
     - cbn [Cache.lint_chunks].
       set (m1 := evict (hd keep_all evs) m).
       assert (Hm1 : entries_ok U m1) by now apply entries_ok_evict.
+      assert (Hwf' : forall ch', In (Some ch') chs -> chunk_wf ch') by (intros ch' H'; apply Hwf; now right).
+      assert (HU' : forall ch', In (Some ch') chs -> In (c_chars ch', spec_rel ch', c) U) by (intros ch' H'; apply HU; now right).
       destruct oc as [ch|].
-      + assert (Hch : In (c_chars ch, c_toks ch, c) U) by (apply HU; now left).
-        assert (HU' : forall ch', In (Some ch') chs -> In (c_chars ch', c_toks ch', c) U) by (intros ch' H'; apply HU; now right).
-        destruct (lookup k_eqb (mkkey (c_chars ch) (c_toks ch) c) m1) as [v|] eqn:L.
+      + assert (Hch : In (c_chars ch, spec_rel ch, c) U) by (apply HU; now left).
+        rewrite (rel_toks_spec kind ch) by (apply Hwf; now left). cbn [bind].
+        destruct (lookup k_eqb (mkkey (c_chars ch) (spec_rel ch) c) m1) as [v|] eqn:L.
         * cbn [bind].
-          destruct (IH (tl evs) m1 Hm1 HU') as (m' & out & hits & E & Hm' & Hs).
+          destruct (IH (tl evs) m1 Hm1 Hwf' HU') as (m' & out & hits & E & Hm' & Hs).
           rewrite E. cbn [bind]. eexists _, _, _. split; [reflexivity|]. split; [assumption|].
           intros Hdet. cbn [flat_map]. rewrite (Hs Hdet). f_equal.
           apply (lookup_In k_eqb k_eqb_spec) in L. apply Hm1 in L. destruct L as (ch0 & t0 & c0 & HU0 & Hk & ->).
@@ -156,11 +258,10 @@ Section CacheFacts.
         * rewrite mapM_pull_push. cbn [bind].
           set (m2 := put k_eqb _ _ m1).
           assert (Hm2 : entries_ok U m2) by (now apply entries_ok_put).
-          destruct (IH (tl evs) m2 Hm2 HU') as (m' & out & hits & E & Hm' & Hs).
+          destruct (IH (tl evs) m2 Hm2 Hwf' HU') as (m' & out & hits & E & Hm' & Hs).
           rewrite E. cbn [bind]. eexists _, _, _. split; [reflexivity|]. split; [assumption|].
           intros Hdet. cbn [flat_map]. rewrite (Hs Hdet). reflexivity.
-      + assert (HU' : forall ch', In (Some ch') chs -> In (c_chars ch', c_toks ch', c) U) by (intros ch' H'; apply HU; now right).
-        destruct (IH (tl evs) m1 Hm1 HU') as (m' & out & hits & E & Hm' & Hs).
+      + destruct (IH (tl evs) m1 Hm1 Hwf' HU') as (m' & out & hits & E & Hm' & Hs).
         exists m', out, hits. split; [assumption|]. split; [assumption|].
         intros Hdet. cbn [flat_map Cache.spec_chunk app]. now apply Hs.
   Qed.
@@ -184,7 +285,7 @@ Section CacheFacts.
         rewrite E. exists sm', (false :: hits). split; [reflexivity|assumption].
   Qed.
 
-  Lemma doc_triples_In c d ch : In (Some ch) (d_chunks d) -> In (c_chars ch, c_toks ch, c) (doc_triples c d).
+  Lemma doc_triples_In c d ch : In (Some ch) (d_chunks d) -> In (c_chars ch, spec_rel ch, c) (doc_triples c d).
   Proof.
     unfold Cache.doc_triples. intros H. apply in_flat_map. exists (Some ch). split; [assumption|now left].
   Qed.
@@ -193,13 +294,13 @@ Section CacheFacts.
     entries_ok U (st_cache st) /\ spell_ok (st_spell st).
 
   Lemma lint_doc_ok U st d evs sevs :
-    state_ok U st -> incl (doc_triples (st_cfg st) d) U ->
+    state_ok U st -> doc_wf d -> incl (doc_triples (st_cfg st) d) U ->
     exists st' out hits,
       lint_doc st d evs sevs = Ok (st', out, hits) /\ state_ok U st' /\ st_cfg st' = st_cfg st /\
       (key_det U -> out = spec_lint (st_cfg st) d).
   Proof.
-    intros [Hc Hs] HU. unfold Cache.lint_doc, Cache.spec_lint.
-    destruct (lint_chunks_ok U (st_cfg st) (d_chunks d) evs (st_cache st) Hc) as (m' & out & hits & E & Hm' & Hspec).
+    intros [Hc Hs] Hwf HU. unfold Cache.lint_doc, Cache.spec_lint.
+    destruct (lint_chunks_ok U (st_cfg st) (d_chunks d) evs (st_cache st) Hc Hwf) as (m' & out & hits & E & Hm' & Hspec).
     { intros ch Hin. apply HU. now apply doc_triples_In. }
     destruct (spell_on (st_cfg st)).
     - destruct (lint_words_ok (d_miss d) sevs (st_spell st) Hs) as (sm' & whits & Ew & Hsm').
@@ -212,29 +313,29 @@ Section CacheFacts.
   (* every history, every eviction: total, the invariant holds afterwards, and under key_det the outputs
      are those of the cache-free specification *)
   Lemma run_hist_ok U : forall h st,
-    state_ok U st -> incl (hist_triples h (st_cfg st)) U ->
+    state_ok U st -> hist_wf h -> incl (hist_triples h (st_cfg st)) U ->
     exists st' outs,
       run_hist h st = Ok (st', outs) /\ state_ok U st' /\
       (key_det U -> outs = spec_hist h (st_cfg st)).
   Proof.
-    induction h as [|o h IH]; intros st Hst HU.
+    induction h as [|o h IH]; intros st Hst Hwf HU.
     - exists st, []. cbn. auto.
     - cbn [Cache.run_hist]. destruct o as [c|d evs sevs|keep skeep].
       + cbn [Cache.step bind].
         destruct (IH (mkstate c (st_cache st) (st_spell st))) as (st' & outs & E & Hst' & Hs).
-        { exact Hst. } { exact HU. }
+        { exact Hst. } { exact Hwf. } { exact HU. }
         rewrite E. cbn [bind]. exists st', outs. split; [reflexivity|]. split; [assumption|]. exact Hs.
-      + cbn [Cache.hist_triples] in HU.
-        destruct (lint_doc_ok U st d evs sevs Hst) as (st1 & out & hits & E1 & Hst1 & Hc & Hs1).
+      + cbn [Cache.hist_triples] in HU. destruct Hwf as [Hwfd Hwf].
+        destruct (lint_doc_ok U st d evs sevs Hst Hwfd) as (st1 & out & hits & E1 & Hst1 & Hc & Hs1).
         { intros x Hx. apply HU. apply in_or_app. now left. }
         cbn [Cache.step]. rewrite E1. cbn [bind].
-        destruct (IH st1 Hst1) as (st' & outs & E & Hst' & Hs).
+        destruct (IH st1 Hst1 Hwf) as (st' & outs & E & Hst' & Hs).
         { rewrite Hc. intros x Hx. apply HU. apply in_or_app. now right. }
         rewrite E. cbn [bind]. exists st', (out :: outs). split; [reflexivity|]. split; [assumption|].
         intros Hdet. cbn [Cache.spec_hist]. rewrite (Hs1 Hdet), (Hs Hdet), Hc. reflexivity.
       + cbn [Cache.step bind].
         destruct (IH (mkstate (st_cfg st) (evict keep (st_cache st)) (evict skeep (st_spell st)))) as (st' & outs & E & Hst' & Hs).
-        { destruct Hst as [H1 H2]. split; [now apply entries_ok_evict|now apply spell_ok_evict]. } { exact HU. }
+        { destruct Hst as [H1 H2]. split; [now apply entries_ok_evict|now apply spell_ok_evict]. } { exact Hwf. } { exact HU. }
         rewrite E. cbn [bind]. exists st', outs. split; [reflexivity|]. split; [assumption|]. exact Hs.
   Qed.
 
@@ -244,17 +345,17 @@ Section CacheFacts.
   (* what a fresh linter answers at each step is the specification, whenever the key determines the value
      on the chunks of that one document *)
   Lemma fresh_hist_spec : forall h c,
-    key_det (hist_triples h c) -> fresh_hist h c = map Ok (spec_hist h c).
+    hist_wf h -> key_det (hist_triples h c) -> fresh_hist h c = map Ok (spec_hist h c).
   Proof.
-    induction h as [|o h IH]; intros c Hdet; [reflexivity|].
-    destruct o as [c'|d evs sevs|keep skeep]; cbn [Cache.fresh_hist Cache.spec_hist Cache.hist_triples] in *.
+    induction h as [|o h IH]; intros c Hwf Hdet; [reflexivity|].
+    destruct o as [c'|d evs sevs|keep skeep]; cbn [Cache.fresh_hist Cache.spec_hist Cache.hist_triples Cache.hist_wf] in *.
     - now apply IH.
-    - cbn [map]. f_equal.
-      + destruct (lint_doc_ok (doc_triples c d) (fresh c) d [] [] (fresh_ok _ c)) as (st1 & out & hits & E1 & _ & _ & Hs1).
+    - destruct Hwf as [Hwfd Hwf]. cbn [map]. f_equal.
+      + destruct (lint_doc_ok (doc_triples c d) (fresh c) d [] [] (fresh_ok _ c) Hwfd) as (st1 & out & hits & E1 & _ & _ & Hs1).
         { apply incl_refl. }
         rewrite E1. cbn [bind]. f_equal. apply Hs1.
         intros ch1 t1 c1 ch2 t2 c2 H1 H2. apply Hdet; apply in_or_app; now left.
-      + apply IH. intros ch1 t1 c1 ch2 t2 c2 H1 H2. apply Hdet; apply in_or_app; now right.
+      + apply IH; [assumption|]. intros ch1 t1 c1 ch2 t2 c2 H1 H2. apply Hdet; apply in_or_app; now right.
     - now apply IH.
   Qed.
 
@@ -264,13 +365,15 @@ Section CacheFacts.
      result of the pattern rules on a chunk (of that history) with this key, and every entry of the
      spelling cache is the uncached suggestion list of its word; and no step panics. *)
   Theorem cache_inv h c0 :
+    hist_wf h ->
     exists st outs,
       run_hist h (fresh c0) = Ok (st, outs) /\
       (forall k v, lookup k_eqb k (st_cache st) = Some v ->
          exists ch t c, In (ch, t, c) (hist_triples h c0) /\ k = mkkey ch t c /\ v = pattern_rel ch t c) /\
       (forall w v, lookup text_eqb w (st_spell st) = Some v -> v = suggest w).
   Proof.
-    destruct (run_hist_ok (hist_triples h c0) h (fresh c0) (fresh_ok _ c0)) as (st & outs & E & [Hc Hs] & _).
+    intros Hwf.
+    destruct (run_hist_ok (hist_triples h c0) h (fresh c0) (fresh_ok _ c0) Hwf) as (st & outs & E & [Hc Hs] & _).
     { apply incl_refl. }
     exists st, outs. split; [assumption|]. split.
     - intros k v L. apply Hc. now apply (lookup_In k_eqb k_eqb_spec).
@@ -281,21 +384,21 @@ Section CacheFacts.
      for every history and every eviction schedule the linter never panics and every Lint step answers what
      the cache-free specification answers, which is also what a freshly built linter answers at that step. *)
   Theorem refinement h c0 :
-    key_det (hist_triples h c0) ->
+    hist_wf h -> key_det (hist_triples h c0) ->
     exists st,
       run_hist h (fresh c0) = Ok (st, spec_hist h c0) /\
       fresh_hist h c0 = map Ok (spec_hist h c0).
   Proof.
-    intros Hdet.
-    destruct (run_hist_ok (hist_triples h c0) h (fresh c0) (fresh_ok _ c0)) as (st & outs & E & _ & Hs).
+    intros Hwf Hdet.
+    destruct (run_hist_ok (hist_triples h c0) h (fresh c0) (fresh_ok _ c0) Hwf) as (st & outs & E & _ & Hs).
     { apply incl_refl. }
     exists st. rewrite (Hs Hdet) in E. split; [assumption|]. now apply fresh_hist_spec.
   Qed.
 
   (* the converse: two (chunk, configuration) pairs with the same key and different pattern lints make the
      cache observable — lint the first, then the second: the reused linter serves the first one's lints,
-     a fresh linter does not. *)
-  Definition one_chunk (ch : text) (t : toks) : doc toks := mkdoc [Some (mkchunk 0 ch t)] [] 0%N.
+     a fresh linter does not.  The chunk sits at offset 0, where relative and absolute token spans coincide. *)
+  Definition one_chunk (ch : text) (t : toks) : doc kind := mkdoc [Some (mkchunk 0 ch t)] [] 0%N.
 
   Lemma lint_one_miss st ch t :
     lookup k_eqb (mkkey ch t (st_cfg st)) (evict keep_all (st_cache st)) = None ->
@@ -310,7 +413,8 @@ Section CacheFacts.
     intros L. unfold Cache.lint_doc, one_chunk. cbn [d_chunks d_miss Cache.lint_words].
     replace (if spell_on (st_cfg st) then (st_spell st, @nil clint, @nil bool) else (st_spell st, [], [])) with (st_spell st, @nil clint, @nil bool)
       by (destruct (spell_on (st_cfg st)); reflexivity).
-    cbn [Cache.lint_chunks hd tl c_start c_chars c_toks]. rewrite L. rewrite mapM_pull_push. reflexivity.
+    cbn [Cache.lint_chunks hd tl c_start c_chars c_toks]. rewrite rel_toks_0. cbn [bind].
+    rewrite L. rewrite mapM_pull_push. reflexivity.
   Qed.
 
   Lemma lint_one_hit st ch t v :
@@ -324,7 +428,8 @@ Section CacheFacts.
     intros L. unfold Cache.lint_doc, one_chunk. cbn [d_chunks d_miss Cache.lint_words].
     replace (if spell_on (st_cfg st) then (st_spell st, @nil clint, @nil bool) else (st_spell st, [], [])) with (st_spell st, @nil clint, @nil bool)
       by (destruct (spell_on (st_cfg st)); reflexivity).
-    cbn [Cache.lint_chunks hd tl c_start c_chars c_toks]. rewrite L. reflexivity.
+    cbn [Cache.lint_chunks hd tl c_start c_chars c_toks]. rewrite rel_toks_0. cbn [bind].
+    rewrite L. reflexivity.
   Qed.
 
   Theorem cache_observable ch1 t1 c1 ch2 t2 c2 c0 :
@@ -350,38 +455,27 @@ Section CacheFacts.
   Qed.
 End CacheFacts.
 
-(* ---------- the code's key: (chunk characters, hash of the configuration) ---------- *)
+(* ---------- the code's key: (chunk characters, hash of the configuration, hash of the tokens) ---------- *)
 Section CodeKey.
-  Variables cfg toks : Type.
+  Variables cfg kind : Type.
   Variable cfg_hash : cfg -> N.
+  Notation toks := (list (tok kind)).
+  Variable tok_hash : toks -> N.
   Variable pattern_rel : text -> toks -> cfg -> list clint.
   Notation triple := (text * toks * cfg)%type.
 
-  (* C05_cfg_hash's hypothesis: the configuration hash is injective on the configurations in use *)
+  (* the two hypotheses of C05_refinement: the configuration hash is injective on the configurations in
+     use, the token hash is injective on the (relative) token sequences in use *)
   Definition hash_inj_on (U : list triple) : Prop :=
     forall x y, In x U -> In y U -> cfg_hash (snd x) = cfg_hash (snd y) -> snd x = snd y.
-  (* H_chunk_fun: the relative pattern lints of a chunk are a function of (chunk characters, configuration) —
-     they do not depend on how the characters were tokenised *)
-  Definition chunk_fun_on (U : list triple) : Prop :=
-    forall ch t1 t2 c, In (ch, t1, c) U -> In (ch, t2, c) U -> pattern_rel ch t1 c = pattern_rel ch t2 c.
-
-  Lemma code_key_det U :
-    hash_inj_on U -> chunk_fun_on U -> key_det cfg toks (text * N) (code_key cfg_hash) pattern_rel U.
-  Proof.
-    intros Hh Hf ch1 t1 c1 ch2 t2 c2 H1 H2 Hk. unfold code_key in Hk. injection Hk as -> Hc.
-    assert (c1 = c2) by (apply (Hh _ _ H1 H2); exact Hc). subst c2. now apply Hf.
-  Qed.
-
-  (* the key of fixes/F11.diff: the tokens are part of the key, H_chunk_fun is not needed any more *)
-  Variable tok_hash : toks -> N.
   Definition tok_hash_inj_on (U : list triple) : Prop :=
     forall x y, In x U -> In y U -> tok_hash (snd (fst x)) = tok_hash (snd (fst y)) -> snd (fst x) = snd (fst y).
 
-  Lemma fixed_key_det U :
+  Lemma code_key_det U :
     hash_inj_on U -> tok_hash_inj_on U ->
-    key_det cfg toks (text * N * N) (fixed_key cfg_hash tok_hash) pattern_rel U.
+    key_det cfg kind (text * N * N) (code_key cfg_hash tok_hash) pattern_rel U.
   Proof.
-    intros Hh Ht ch1 t1 c1 ch2 t2 c2 H1 H2 Hk. unfold fixed_key in Hk. injection Hk as -> Hc Htk.
+    intros Hh Ht ch1 t1 c1 ch2 t2 c2 H1 H2 Hk. unfold code_key in Hk. injection Hk as -> Hc Htk.
     assert (c1 = c2) by (apply (Hh _ _ H1 H2); exact Hc).
     assert (t1 = t2) by (apply (Ht _ _ H1 H2); exact Htk).
     now subst.
@@ -390,52 +484,59 @@ End CodeKey.
 
 (* ---------- the statements pinned in Properties/C05.v, for the key the code builds ---------- *)
 Section Pinned.
-  Variables cfg toks : Type.
+  Variables cfg kind : Type.
   Variable cfg_hash : cfg -> N.
+  Notation toks := (list (tok kind)).
+  Variable tok_hash : toks -> N.
   Variable pattern_rel : text -> toks -> cfg -> list clint.
-  Variables struct_pre struct_post : cfg -> doc toks -> list clint.
+  Variables struct_pre struct_post : cfg -> doc kind -> list clint.
   Variable spell_on : cfg -> bool.
   Variable suggest : text -> list text.
   Variable spell_mk : text -> span -> list text -> clint.
 
-  Notation run_code := (run_hist cfg toks (text * N) code_key_eqb (code_key cfg_hash) pattern_rel struct_pre struct_post spell_on suggest spell_mk).
-  Notation fresh_code := (fresh_hist cfg toks (text * N) code_key_eqb (code_key cfg_hash) pattern_rel struct_pre struct_post spell_on suggest spell_mk).
-  Notation spec := (spec_hist cfg toks (text * N) pattern_rel struct_pre struct_post spell_on suggest spell_mk).
-  Notation U := (hist_triples cfg toks (text * N)).
+  Notation run_code := (run_hist cfg kind (text * N * N) code_key_eqb (code_key cfg_hash tok_hash) pattern_rel struct_pre struct_post spell_on suggest spell_mk).
+  Notation fresh_code := (fresh_hist cfg kind (text * N * N) code_key_eqb (code_key cfg_hash tok_hash) pattern_rel struct_pre struct_post spell_on suggest spell_mk).
+  Notation spec := (spec_hist cfg kind (text * N * N) pattern_rel struct_pre struct_post spell_on suggest spell_mk).
+  Notation U := (hist_triples cfg kind (text * N * N)).
+  Notation wf := (hist_wf cfg kind (text * N * N)).
 
-  Lemma code_cache_inv (h : list (op cfg toks (text * N))) c0 :
+  Lemma code_cache_inv (h : list (op cfg kind (text * N * N))) c0 :
+    wf h ->
     exists st outs,
       run_code h (fresh c0) = Ok (st, outs) /\
-      (forall chars hsh v, lookup code_key_eqb (chars, hsh) (st_cache st) = Some v ->
-         exists t c, In (chars, t, c) (U h c0) /\ cfg_hash c = hsh /\ v = pattern_rel chars t c) /\
+      (forall chars hc ht v, lookup code_key_eqb (chars, hc, ht) (st_cache st) = Some v ->
+         exists t c, In (chars, t, c) (U h c0) /\ cfg_hash c = hc /\ tok_hash t = ht /\ v = pattern_rel chars t c) /\
       (forall w v, lookup text_eqb w (st_spell st) = Some v -> v = suggest w).
   Proof.
-    destruct (cache_inv cfg toks (text * N) code_key_eqb code_key_eqb_spec (code_key cfg_hash) pattern_rel
-                struct_pre struct_post spell_on suggest spell_mk h c0) as (st & outs & E & Hc & Hs).
+    intros Hwf.
+    destruct (cache_inv cfg kind (text * N * N) code_key_eqb code_key_eqb_spec (code_key cfg_hash tok_hash) pattern_rel
+                struct_pre struct_post spell_on suggest spell_mk h c0 Hwf) as (st & outs & E & Hc & Hs).
     exists st, outs. split; [assumption|]. split; [|assumption].
-    intros chars hsh v L. destruct (Hc _ _ L) as (ch & t & c & HU & Hk & Hv).
-    unfold code_key in Hk. injection Hk as -> ->. now exists t, c.
+    intros chars hc ht v L. destruct (Hc _ _ L) as (ch & t & c & HU & Hk & Hv).
+    unfold code_key in Hk. injection Hk as -> -> ->. now exists t, c.
   Qed.
 
-  Lemma code_refinement (h : list (op cfg toks (text * N))) c0 :
-    hash_inj_on cfg toks cfg_hash (U h c0) -> chunk_fun_on cfg toks pattern_rel (U h c0) ->
+  Lemma code_refinement (h : list (op cfg kind (text * N * N))) c0 :
+    wf h ->
+    hash_inj_on cfg kind cfg_hash (U h c0) -> tok_hash_inj_on cfg kind tok_hash (U h c0) ->
     exists st, run_code h (fresh c0) = Ok (st, spec h c0) /\ fresh_code h c0 = map Ok (spec h c0).
   Proof.
-    intros Hh Hf. apply refinement; [exact code_key_eqb_spec|]. now apply code_key_det.
+    intros Hwf Hh Ht. apply refinement; [exact code_key_eqb_spec|assumption|]. now apply code_key_det.
   Qed.
 
-  Lemma code_needs_chunk_fun ch t1 t2 c c0 :
-    pattern_rel ch t1 c <> pattern_rel ch t2 c ->
-    let h := [SetCfg c; Lint (one_chunk toks ch t1) [] []; SetCfg c; Lint (one_chunk toks ch t2) [] []] in
+  Lemma code_needs_tok_hash ch t1 t2 c c0 :
+    tok_hash t1 = tok_hash t2 -> pattern_rel ch t1 c <> pattern_rel ch t2 c ->
+    let h := [SetCfg c; Lint (one_chunk kind ch t1) [] []; SetCfg c; Lint (one_chunk kind ch t2) [] []] in
     exists st o1 reused fresh_out,
       run_code h (fresh c0) = Ok (st, [o1; reused]) /\ fresh_code h c0 = [Ok o1; Ok fresh_out] /\ reused <> fresh_out.
   Proof.
-    intros Hne. apply cache_observable; [exact code_key_eqb_spec|reflexivity|assumption].
+    intros Ht Hne. apply cache_observable; [exact code_key_eqb_spec| |assumption].
+    unfold code_key. now rewrite Ht.
   Qed.
 
   Lemma code_needs_cfg_hash ch t c1 c2 c0 :
     cfg_hash c1 = cfg_hash c2 -> pattern_rel ch t c1 <> pattern_rel ch t c2 ->
-    let h := [SetCfg c1; Lint (one_chunk toks ch t) [] []; SetCfg c2; Lint (one_chunk toks ch t) [] []] in
+    let h := [SetCfg c1; Lint (one_chunk kind ch t) [] []; SetCfg c2; Lint (one_chunk kind ch t) [] []] in
     exists st o1 reused fresh_out,
       run_code h (fresh c0) = Ok (st, [o1; reused]) /\ fresh_code h c0 = [Ok o1; Ok fresh_out] /\ reused <> fresh_out.
   Proof.
@@ -443,39 +544,46 @@ Section Pinned.
     unfold code_key. now rewrite Hh.
   Qed.
 
-  (* the key of fixes/F11.diff *)
-  Variable tok_hash : toks -> N.
-  Notation run_fixed := (run_hist cfg toks (text * N * N) fixed_key_eqb (fixed_key cfg_hash tok_hash) pattern_rel struct_pre struct_post spell_on suggest spell_mk).
-  Notation fresh_fixed := (fresh_hist cfg toks (text * N * N) fixed_key_eqb (fixed_key cfg_hash tok_hash) pattern_rel struct_pre struct_post spell_on suggest spell_mk).
-  Notation spec3 := (spec_hist cfg toks (text * N * N) pattern_rel struct_pre struct_post spell_on suggest spell_mk).
-  Notation U3 := (hist_triples cfg toks (text * N * N)).
+  (* the construction LintGroup::lint uses establishes the well-formedness the theorems ask for *)
+  Lemma code_doc_of_wf src (chunks : list toks) miss rest d :
+    doc_of src chunks miss rest = Ok d -> doc_wf d.
+  Proof. apply doc_of_wf. Qed.
 
-  Lemma fixed_refinement (h : list (op cfg toks (text * N * N))) c0 :
-    hash_inj_on cfg toks cfg_hash (U3 h c0) -> tok_hash_inj_on cfg toks tok_hash (U3 h c0) ->
-    exists st, run_fixed h (fresh c0) = Ok (st, spec3 h c0) /\ fresh_fixed h c0 = map Ok (spec3 h c0).
-  Proof.
-    intros Hh Ht. apply refinement; [exact fixed_key_eqb_spec|]. now apply fixed_key_det.
-  Qed.
+  Lemma code_hull_total (ts : toks) : exists o, hull_of ts = Ok o.
+  Proof. apply hull_of_total. Qed.
 End Pinned.
 
 (* ---------- a concrete instance for the non-vacuity examples ----------
-   configurations 0 (rule off) / 1 (rule on), hashed by the identity; tokenisations 0 ("plain": words) and
-   1 ("Markdown": the back-quoted part is one unlintable token); the one pattern rule flags characters 1..3
-   of the chunk [96;98;96] ("`b`") when it sees words. *)
-Definition ex_rel (ch : text) (t c : N) : list clint :=
-  if (text_eqb ch [96; 98; 96]%N && N.eqb t 0 && N.eqb c 1)%bool then [mkclint (mkspan 1 2) 7] else [].
+   configurations 0 (rule off) / 1 (rule on), hashed by the identity; token kinds 1 (punctuation), 2 (word),
+   3 (space), 9 (unlintable); the clause "`b`" tokenised as plain text (punctuation, word, punctuation) or as
+   Markdown (one unlintable token: inline code); the one pattern rule flags characters 1..2 of the chunk
+   [96;98;96] ("`b`") when it sees a word token there. *)
+Definition ex_src : text := [96; 98; 96; 32; 120; 120; 44; 32; 32; 32; 96; 98; 96; 32; 120; 120]%N.
+Definition ex_has_word (t : list (tok N)) : bool := existsb (fun k => N.eqb (fst k) 2) t.
+Definition ex_rel (ch : text) (t : list (tok N)) (c : N) : list clint :=
+  if (text_eqb ch [96; 98; 96]%N && ex_has_word t && N.eqb c 1)%bool then [mkclint (mkspan 1 2) 7] else [].
 Definition ex_pre (c : N) (d : doc N) : list clint := [mkclint (mkspan 0 0) (d_rest d)].
 Definition ex_post (c : N) (d : doc N) : list clint := [].
 Definition ex_suggest (w : text) : list text := [w ++ [33]%N].
 Definition ex_mk (w : text) (sp : span) (sug : list text) : clint := mkclint sp (N.of_nat (length (hd [] sug))).
-Definition ex_run := run_hist N N (text * N) code_key_eqb (code_key (fun c => c)) ex_rel ex_pre ex_post (fun _ => true) ex_suggest ex_mk.
-Definition ex_fresh := fresh_hist N N (text * N) code_key_eqb (code_key (fun c => c)) ex_rel ex_pre ex_post (fun _ => true) ex_suggest ex_mk.
-Definition ex_spec := spec_hist N N (text * N) ex_rel ex_pre ex_post (fun _ => true) ex_suggest ex_mk.
-Definition ex_run_fixed := run_hist N N (text * N * N) fixed_key_eqb (fixed_key (fun c => c) (fun t => t)) ex_rel ex_pre ex_post (fun _ => true) ex_suggest ex_mk.
-Definition ex_chunk (start : nat) (t : N) : option (chunk N) := Some (mkchunk start [96; 98; 96]%N t).
-(* the same clause twice in one document at two offsets, a misspelt word twice *)
+(* an injective token hash on what occurs: the number of tokens *)
+Definition ex_tok_hash (t : list (tok N)) : N := N.of_nat (length t).
+Definition ex_run := run_hist N N (text * N * N) code_key_eqb (code_key (fun c => c) ex_tok_hash) ex_rel ex_pre ex_post (fun _ => true) ex_suggest ex_mk.
+Definition ex_fresh := fresh_hist N N (text * N * N) code_key_eqb (code_key (fun c => c) ex_tok_hash) ex_rel ex_pre ex_post (fun _ => true) ex_suggest ex_mk.
+Definition ex_spec := spec_hist N N (text * N * N) ex_rel ex_pre ex_post (fun _ => true) ex_suggest ex_mk.
+(* HISTORY: the same linter with the key before commit a050122 *)
+Definition ex_run_old := run_hist N N (text * N) code_key_old_eqb (code_key_old (fun c => c)) ex_rel ex_pre ex_post (fun _ => true) ex_suggest ex_mk.
+(* the tokens of the clause "`b`" starting at `at_`, tokenisation 0 = plain text, else Markdown *)
+Definition ex_toks (at_ : nat) (t : N) : list (tok N) :=
+  if N.eqb t 0 then [(1%N, mkspan at_ (at_ + 1)); (2%N, mkspan (at_ + 1) (at_ + 2)); (1%N, mkspan (at_ + 2) (at_ + 3))]
+  else [(9%N, mkspan at_ (at_ + 3))].
+(* the same clause twice in one document at two offsets (built as LintGroup::lint builds chunks: hull and
+   characters from the source), a token-less slice in between, a misspelt word twice *)
 Definition ex_doc (t : N) : doc N :=
-  mkdoc [ex_chunk 0 t; None; ex_chunk 10 t] [(mkspan 4 6, [120; 120]%N); (mkspan 14 16, [120; 120]%N)] 5.
+  match doc_of ex_src [ex_toks 0 t; []; ex_toks 10 t] [(mkspan 4 6, [120; 120]%N); (mkspan 14 16, [120; 120]%N)] 5 with
+  | Ok d => d
+  | Panic _ => mkdoc [] [] 0
+  end.
 Definition ex_outs {K} (r : res (state N K * list (list clint))) : list (list (nat * nat * N)) :=
   match r with
   | Ok (_, outs) => map (map (fun l => (sstart (cl_span l), send (cl_span l), cl_body l))) outs
